@@ -101,6 +101,8 @@ class RoleEval:
         rl = self.role_of_term(t, e)
         if rl is not None:
             if rl not in env:
+                if rl.startswith("const:") and t[0] == "const":
+                    return t[1]  # a literal keeps its own value when the enumeration is over concrete numbers
                 raise AnalysisError(f"role {rl} has no value in the enumeration")
             return env[rl]
         k = t[0]
@@ -140,7 +142,7 @@ class RoleEval:
                         r = a == b
                     elif op == "!=":
                         r = a != b
-                    elif op in ("is", "is not") and (isinstance(a, bool) or a is None) and (isinstance(b, bool) or b is None):
+                    elif op in ("is", "is not") and (a is None or b is None or (isinstance(a, bool) and isinstance(b, bool))):
                         r = (a is b) if op == "is" else (a is not b)
                     else:
                         self.unknown_atoms.append(show(t))
@@ -152,6 +154,17 @@ class RoleEval:
             return res
         if k == "const":
             return t[1]
+        if k == "binop" and t[1] in ("+", "-", "*"):
+            a, b = self.eval_term(t[2], env), self.eval_term(t[3], env)
+            if isinstance(a, (int, float)) and isinstance(b, (int, float)) and not isinstance(a, bool) and not isinstance(b, bool):
+                return a + b if t[1] == "+" else (a - b if t[1] == "-" else a * b)
+            return UNKNOWN
+        if k == "phi":
+            vals = {repr(v): v for v in (self.eval_term(a, env) for a in t[1])}
+            if len(vals) == 1:
+                return next(iter(vals.values()))
+            self.unknown_atoms.append(show(t))
+            return UNKNOWN
         if k == "call" and t[1] == ("global", "bool") and len(t[2]) == 1:
             v = self.eval_term(t[2][0], env)
             return UNKNOWN if v is UNKNOWN else bool(v)
